@@ -15,7 +15,8 @@ RULE = (
     "operation sequences on a real Output >> Input pair (optionally behind a pass-through adapter): "
     "publications in every payload form (python scalar, list, shaped / flat-in-grid-order / time-axis arrays, "
     "masked arrays, quantities in foreign compatible units, and refused forms: incompatible units, wrong size, "
-    "array sharing memory with the previous one) and pulls at exact publication times, exact midpoints, "
+    "array sharing memory with the previous one; optionally under a memory limit of 0-3.5 payloads, so that "
+    "the RAM-to-disk transition falls on any publication) and pulls at exact publication times, exact midpoints, "
     "fractions between neighbours, before the oldest retained and after the newest publication; grid kinds "
     "NoGrid(0-2D)/uniform/rectilinear/ESRI layouts, unit pairs of one dimension from the catalogue, mask "
     "FLEX/NONE/fixed. Reference model keeps every publication in producer units. non-trivial = >=3 "
@@ -27,6 +28,9 @@ ASSUMPTIONS = [
     "'oldest retained' is read from Output.data[0] (C09 decides what may be retained)",
     "masked payloads are pushed only to slots whose metadata allows masks (FLEX or the same fixed mask)",
     "values under a mask are unspecified (compared at unmasked cells only)",
+    "an array sharing memory with the previous publication must be refused while that publication is retained in "
+    "memory; when it was spilled to a file nothing retained can alias it and acceptance (with correct values for "
+    "both publications afterwards) is allowed",
 ]
 
 DIMS = hu.by_dimension()
@@ -50,6 +54,22 @@ def _close(got, exp):
 
 
 def check(case, ctx):
+    """a memory limit (multiples of one payload's size) makes later publications spill to disk, which must not
+    change anything observable here - in particular the refusal of aliasing publications"""
+    if case.get("limit") is None:
+        return _check(case, ctx, None)
+    import shutil
+    import tempfile
+
+    d = tempfile.mkdtemp(prefix="vf-c08-")
+    try:
+        ctx.event("with-memory-limit")
+        return _check(case, ctx, d)
+    finally:
+        shutil.rmtree(d, ignore_errors=True)
+
+
+def _check(case, ctx, memloc):
     import finam as fm
     from finam.data import tools
 
@@ -83,6 +103,8 @@ def check(case, ctx):
         fm.Info(time=hs.T0, grid=g, units=pu, mask=pmask),
         [fm.Info(time=hs.T0, grid=cg, units=cu)],
         chain=case["chain"],
+        mem_limit=None if memloc is None else int(case["limit"] * n * 8),
+        mem_loc=memloc,
     )
     link.connect()
     inp = link.inputs[0]
@@ -141,7 +163,13 @@ def check(case, ctx):
                 if last_arr is None or not shape:
                     continue
                 payload = last_arr if form == "same" else last_arr[...]
-                refuse = "shares"
+                if link.out.data and isinstance(link.out.data[-1][1], str):
+                    # the previous publication lives in a file: nothing retained can alias the array, the
+                    # publication may be accepted and then carries the array's (= the previous) values
+                    exp_vals, exp_mask = pubs[-1][1], pubs[-1][2]
+                    ctx.event("same-array-after-spilled-entry")
+                else:
+                    refuse = "shares"
             else:
                 raise ValueError(form)
             before_len, before_time = len(link.out.data), link.out.time
@@ -283,7 +311,8 @@ def case_st(draw):
     if grid[0] == "grid" and grid[1]["cls"] != "esri" and draw(st.integers(0, 2)) == 0:
         lens = [len(a) for a in hg.user_axes(grid[1])]
         cgrid = hg.same_geometry_layout(grid[1], draw(st.sampled_from("CF")), draw(st.booleans()), [draw(st.booleans()) and n > 1 for n in lens])
-    return {"grid": grid, "pu": pu, "cu": cu, "mask": mask, "chain": chain, "ops": ops, "cgrid": cgrid}
+    limit = draw(st.sampled_from([None, None, None, None, 0, 0.5, 1.5, 1.5, 2.5, 3.5]))
+    return {"grid": grid, "pu": pu, "cu": cu, "mask": mask, "chain": chain, "ops": ops, "cgrid": cgrid, "limit": limit}
 
 
 def parts():
